@@ -240,3 +240,69 @@ def c09_reference2(tier="quick", seed=0):
                       f"{len(bs)} of {n} differ, e.g. /{b[0]}/{b[1]}.exec({b[2]!r}): engine {b[3]!r}, reference {b[4]!r}",
                       witness=(f"new RegExp({json.dumps(b[0])}, '{b[1]}').exec({json.dumps(b[2])})" if b else None), confirmed=True if b else None, domain=n))
     return out
+
+
+@groups.group(id="C09.struct.process-state", prop="C09", kind="K3", functions=["microjs (module-level state)"])
+def c09_process_state(tier="quick", seed=0):
+    """a match depends on pattern, flags and subject only: no compiled-pattern cache or other state outlives a construction (the analysis of C12)"""
+    from contracts.C12_context import process_state
+    return process_state("C09", tier, seed)
+
+
+# ---- K4: character classes are the union of their members, whatever their order and overlap -------------------------------
+@groups.group(id="C09.classes", prop="C09", kind="K4", functions=["microjs.regex.compiler:RegexCompiler._compile_char_class", "microjs.regex.vm:RegexVM._in_ranges"])
+def c09_classes(tier="quick", seed=0):
+    """every class of up to three members (single characters, ranges -- nested, overlapping, adjacent, reversed order of
+    writing -- and the shorthand escapes), plain and negated, with and without the i flag, against set union over a test
+    alphabet (exhaustive over the member vocabulary); and every shorthand inside a class over all BMP code points"""
+    import itertools
+    from microjs.regex import RegExp
+    ES_WS = set("\t\n\x0b\x0c\r \xa0\u1680\u2000\u2001\u2002\u2003\u2004\u2005\u2006\u2007\u2008\u2009\u200a\u2028\u2029\u202f\u205f\u3000\ufeff")
+    word = lambda ch: ch.isascii() and (ch.isalnum() or ch == "_")
+    members = {"a": lambda c: c == "a", "b": lambda c: c == "b", "c": lambda c: c == "c", "e": lambda c: c == "e", "3": lambda c: c == "3", "_": lambda c: c == "_", "-": None,
+               "a-c": lambda c: "a" <= c <= "c", "b-e": lambda c: "b" <= c <= "e", "a-f": lambda c: "a" <= c <= "f", "c-d": lambda c: "c" <= c <= "d", "a-a": lambda c: c == "a",
+               "0-9": lambda c: "0" <= c <= "9", "2-4": lambda c: "2" <= c <= "4", "A-C": lambda c: "A" <= c <= "C", "\\d": lambda c: "0" <= c <= "9", "\\w": word,
+               "\\s": lambda c: c in ES_WS, "\\D": lambda c: not ("0" <= c <= "9"), "\\S": lambda c: c not in ES_WS, "\\W": lambda c: not word(c)}
+    del members["-"]
+    alphabet = list("abcdefgABCDEFG0123456789_- \n\t!~\u00e9\u2003\u0130\u212a")
+    names = list(members)
+    bad = None
+    n = 0
+    combos = list(itertools.product(names, repeat=2)) + ([t for t in itertools.product(names, repeat=3)] if tier == "thorough" else [t for i, t in enumerate(itertools.product(names, repeat=3)) if i % 7 == seed % 7])
+    for combo in combos:
+        body = "".join(combo)
+        for neg in ("", "^"):
+            for fl in ("", "i"):
+                try:
+                    rx = RegExp("^[" + neg + body + "]$", fl)
+                except Exception as e:  # noqa
+                    bad = bad or (f"/[{neg}{body}]/{fl}", f"{type(e).__name__}: {str(e)[:60]}")
+                    continue
+                for ch in alphabet:
+                    n += 1
+                    if fl == "i":
+                        # Canonicalize: ASCII letters fold; the two non-ASCII letters of the alphabet have no ASCII partner
+                        forms = {ch, ch.upper(), ch.lower()} if ch.isascii() else {ch}
+                        inside = any(any(members[m](f) for f in forms if len(f) == 1) for m in combo)
+                    else:
+                        inside = any(members[m](ch) for m in combo)
+                    want = inside != (neg == "^")
+                    if rx.test(ch) != want and bad is None:
+                        bad = (f"/^[{neg}{body}]$/{fl}.test({ch!r})", f"engine {not want}, set union says {want}")
+    out = [ob("C09.classes.union", bad is None, "K4", f"{n} (class, character) cases" if bad is None else f"{bad[0]}: {bad[1]}", witness=(bad[0] if bad else None), confirmed=True if bad else None, domain=n)]
+    # shorthand escapes inside a class agree with the bare escape over all BMP code points
+    bad = None
+    n = 0
+    for esc, pred in (("\\d", members["\\d"]), ("\\D", members["\\D"]), ("\\w", members["\\w"]), ("\\W", members["\\W"]), ("\\s", members["\\s"]), ("\\S", members["\\S"])):
+        for neg in ("", "^"):
+            rx = RegExp("^[" + neg + esc + "]$", "")
+            for cp in range(0x10000):
+                if 0xD800 <= cp <= 0xDFFF:
+                    continue
+                n += 1
+                ch = chr(cp)
+                if rx.test(ch) != (pred(ch) != (neg == "^")) and bad is None:
+                    bad = (f"/^[{neg}{esc}]$/.test(String.fromCharCode({cp}))", f"engine {rx.test(ch)}")
+    out.append(ob("C09.classes.shorthands-in-classes", bad is None, "K4", f"{n} (class, code point) cases" if bad is None else f"{bad[0]}: {bad[1]}",
+                  witness=(bad[0] if bad else None), confirmed=True if bad else None, domain=n))
+    return out
